@@ -11,52 +11,109 @@ open Attrs.Init
 
 /-- **C12_original_untouched**: neither operation changes the original's field values. -/
 theorem C12_original_untouched (c : Case) : (model c).orig = c.cur := by
-  unfold model
-  cases c.op <;> simp <;> split <;> try rfl
-  split <;> rfl
+  unfold model failed
+  cases c.op <;> simp only <;> repeat (first | rfl | split)
 
-/-- **C12_evolve_is_init**: whenever every init field can be read, `evolve` raises exactly what the class's
-    initializer raises on the call `changes ∪ {alias ↦ current value}`, and otherwise returns a fresh
-    instance holding exactly the values that call constructs — so every theorem about construction
-    (C01/C02) applies to evolve's result. -/
-theorem C12_evolve_is_init (c : Case) (hop : c.op = .evolve)
+/-- the model of `evolve` on a readable original, in terms of the fault-free initializer run -/
+theorem model_evolve (c : Case) (hop : c.op = .evolve)
     (hm : evolveMissing c.base.run.attrs c.cur c.changes = false) :
-    (model c).exc = (runInit (evolveCase c)).exc ∧
-    ((runInit (evolveCase c)).exc = none →
-      (model c).values = (runInit (evolveCase c)).values ∧ (model c).fresh = true) := by
+    model c =
+      (match (runInit (evolveCase c)).exc with
+       | some e => failed c e (runInit (evolveCase c)).trace
+       | none =>
+         match vetoFault (evolveCase c).run c.veto (runInit (evolveCase c)).values with
+         | some f =>
+           { exc := (runInit (withFault (evolveCase c) f)).exc, values := [], orig := c.cur, fresh := false,
+             invariants := false, ident := [], trace := (runInit (withFault (evolveCase c) f)).trace,
+             likeDirect := true }
+         | none =>
+           { exc := none, values := (runInit (evolveCase c)).values, orig := c.cur, fresh := true,
+             invariants := !(cacheMisplaced c.base.run && (runInit (evolveCase c)).values.all (·.2.isSome)),
+             ident := evolveIdent c.base.run.attrs c.changes (runInit (evolveCase c)).values,
+             trace := (runInit (evolveCase c)).trace, likeDirect := true }) := by
   unfold model
   rw [hop]
   simp only [hm, Bool.false_eq_true, if_false]
-  cases h : (runInit (evolveCase c)).exc <;> simp
+  rfl
 
-/-- **C12_evolve_values**: evolving a fully constructed instance with changes that all name init aliases
-    succeeds and yields a fresh instance in which every changed field holds converter(new value), every
-    other init field converter(current value), and every `init=False` field is re-derived from its default
-    or factory (unset without one). -/
+/-- **C12_evolve_is_init**: whenever every init field can be read, `evolve` raises whatever the class's
+    initializer raises on the call `changes ∪ {alias ↦ current value}`; and when that call returns and no
+    validator of the class rejects the new instance, `evolve` returns a fresh instance holding exactly the
+    values (and having run exactly the callbacks) of that call — so every theorem about construction
+    (C01/C02) applies to evolve's result. -/
+theorem C12_evolve_is_init (c : Case) (hop : c.op = .evolve)
+    (hm : evolveMissing c.base.run.attrs c.cur c.changes = false) :
+    (∀ e, (runInit (evolveCase c)).exc = some e → (model c).exc = some e) ∧
+    ((runInit (evolveCase c)).exc = none →
+      vetoFault (evolveCase c).run c.veto (runInit (evolveCase c)).values = none →
+      (model c).exc = none ∧ (model c).values = (runInit (evolveCase c)).values ∧ (model c).fresh = true ∧
+      (model c).trace = (runInit (evolveCase c)).trace) := by
+  rw [model_evolve c hop hm]
+  constructor
+  · intro e he; simp only [he]; rfl
+  · intro he hv; simp [he, hv]
+
+/-- **C12_evolve_values**: evolving a fully constructed instance with changes that all name init aliases, to a
+    state no validator of the class rejects, succeeds and yields a fresh instance in which every changed field
+    holds converter(new value), every other init field converter(current value), and every `init=False` field is
+    re-derived from its default or factory (unset without one). -/
 theorem C12_evolve_values (c : Case) (hwf : wf c = true) (hk : known c = []) (hop : c.op = .evolve)
-    (hall : c.changes.all (fun kv => (c.base.run.attrs.filter (·.init)).any (·.alias == kv.1)) = true) :
-    (model c).exc = none ∧ (model c).fresh = true ∧
-    (model c).values = c.base.run.attrs.map (fun a => (a.name,
-      if a.init then (passedFor c a).map (convApply a)
-      else match a.dflt with
-        | .none => none
-        | .value => some (convApply a (dfltVal a))
-        | .factory ts => some (convApply a (factoryVal a ts)))) := by
+    (hall : c.changes.all (fun kv => (c.base.run.attrs.filter (·.init)).any (·.alias == kv.1)) = true)
+    (hv : vetoed c = false) :
+    (model c).exc = none ∧ (model c).fresh = true ∧ (model c).values = expectedValues c := by
   have p := wfParts c hwf
+  obtain ⟨e, v⟩ := runInit_evolve c p (known_nil c hk).1 hall
+  have hvf : vetoFault (evolveCase c).run c.veto (runInit (evolveCase c)).values = none := by
+    have := vetoFault_evolve c p (known_nil c hk).1 hall
+    rw [hv] at this
+    simpa using this
+  obtain ⟨h1, h2, h3, _⟩ := (C12_evolve_is_init c hop (evolveMissing_false c p)).2 e hvf
+  exact ⟨h1, h3, by rw [h2, v]⟩
+
+/-- **C12_evolve_vetoed**: what the class refuses to construct `evolve` does not hand out — if a validator of ANY
+    field that gets a statement (changed or carried over from the original, e.g. after the original was mutated
+    into an invalid state, or a validator that looks at another field) rejects the instance holding the new
+    values, `evolve` raises that validator's exception, having run the callbacks of a direct call up to and
+    including that validator. -/
+theorem C12_evolve_vetoed (c : Case) (hwf : wf c = true) (hk : known c = []) (hop : c.op = .evolve)
+    (hall : c.changes.all (fun kv => (c.base.run.attrs.filter (·.init)).any (·.alias == kv.1)) = true)
+    (hv : vetoed c = true) :
+    (model c).exc = some .user ∧
+    ∃ f, (model c).trace = C02.cutAt (some f) (C02.expectedTrace (evolveCase c).eff (evolveCase c).call) := by
+  have p := wfParts c hwf
+  obtain ⟨e, _⟩ := runInit_evolve c p (known_nil c hk).1 hall
+  have hs := vetoFault_evolve c p (known_nil c hk).1 hall
+  rw [hv] at hs
+  obtain ⟨f, hf⟩ := Option.isSome_iff_exists.1 hs
+  obtain ⟨h1, h2⟩ := runInit_withFault c p (known_nil c hk).1 hall f hf
+  rw [model_evolve c hop (evolveMissing_false c p)]
+  simp only [e, hf]
+  exact ⟨h1, f, h2⟩
+
+/-- **C12_evolve_trace**: a successful `evolve` runs exactly the user callbacks of a direct call of the class:
+    pre-init, per field factory/converter(s), every validator, post-init — each once, in that order. -/
+theorem C12_evolve_trace (c : Case) (hwf : wf c = true) (hk : known c = []) (hop : c.op = .evolve)
+    (hall : c.changes.all (fun kv => (c.base.run.attrs.filter (·.init)).any (·.alias == kv.1)) = true)
+    (hv : vetoed c = false) :
+    (model c).trace = C02.expectedTrace (evolveCase c).eff (evolveCase c).call := by
+  have p := wfParts c hwf
+  obtain ⟨e, _⟩ := runInit_evolve c p (known_nil c hk).1 hall
+  have hvf : vetoFault (evolveCase c).run c.veto (runInit (evolveCase c)).values = none := by
+    have := vetoFault_evolve c p (known_nil c hk).1 hall
+    rw [hv] at this
+    simpa using this
+  obtain ⟨_, _, _, h4⟩ := (C12_evolve_is_init c hop (evolveMissing_false c p)).2 e hvf
+  rw [h4]
   have hok : callOk (params (evolveCase c).run.attrs) (evolveCase c).call = true := by
     rw [← hall]; exact callOk_evolve c p
-  obtain ⟨e, v⟩ := C01.C01_values (evolveCase c) (wf_evolveCase c p) (known_nil c hk).1 hok
-  obtain ⟨h1, h2⟩ := C12_evolve_is_init c hop (evolveMissing_false c p)
-  obtain ⟨h3, h4⟩ := h2 e
-  refine ⟨by rw [h1, e], h4, ?_⟩
-  rw [h3, v]
-  apply List.map_congr_left
-  intro a ha
-  rw [show (evolveCase c).call = evolveCall c.base.run.attrs c.cur c.changes from rfl]
-  exact congrArg (Prod.mk a.name) (expected_evolve c p a ha)
+  have hwf2 : C02.wf (evolveCase c) = true := by
+    unfold C02.wf
+    rw [setFault_none (evolveCase c) (evolveCase_fault c p), wf_evolveCase c p, hok]
+    rfl
+  exact C02.C02_trace (evolveCase c) hwf2 (known_nil c hk).1 (evolveCase_fault c p)
 
 /-- **C12_unknown_typeerror**: a change whose name is not the alias of an init field makes `evolve` raise
-    TypeError (and, by `C12_evolve_values`, nothing else does). -/
+    TypeError (and, by `C12_evolve_values` / `C12_evolve_vetoed`, nothing else does). -/
 theorem C12_unknown_typeerror (c : Case) (hwf : wf c = true) (hk : known c = []) (hop : c.op = .evolve)
     (hbad : c.changes.all (fun kv => (c.base.run.attrs.filter (·.init)).any (·.alias == kv.1)) = false) :
     (model c).exc = some .typeError := by
@@ -64,11 +121,11 @@ theorem C12_unknown_typeerror (c : Case) (hwf : wf c = true) (hk : known c = [])
   have hok : callOk (params (evolveCase c).run.attrs) (evolveCase c).call = false := by
     rw [← hbad]; exact callOk_evolve c p
   have := (C01.C01_bind_iff (evolveCase c) (wf_evolveCase c p) (known_nil c hk).1).2 hok
-  rw [(C12_evolve_is_init c hop (evolveMissing_false c p)).1, this]
+  exact (C12_evolve_is_init c hop (evolveMissing_false c p)).1 _ this
 
 /-- **C12_typeerror_iff**: for a fully constructed original, `evolve` raises TypeError exactly when some change
     does not name the alias of an init field (in particular: a private field's name instead of its alias,
-    or an `init=False` field). -/
+    an `init=False` field, a method, a class constant, any other attribute of the instance). -/
 theorem C12_typeerror_iff (c : Case) (hwf : wf c = true) (hk : known c = []) (hop : c.op = .evolve) :
     (model c).exc = some .typeError ↔
       c.changes.all (fun kv => (c.base.run.attrs.filter (·.init)).any (·.alias == kv.1)) = false := by
@@ -77,80 +134,106 @@ theorem C12_typeerror_iff (c : Case) (hwf : wf c = true) (hk : known c = []) (ho
     cases hall : c.changes.all (fun kv => (c.base.run.attrs.filter (·.init)).any (·.alias == kv.1)) with
     | false => rfl
     | true =>
-      have := (C12_evolve_values c hwf hk hop hall).1
-      rw [this] at h
-      cases h
+      cases hv : vetoed c with
+      | false =>
+        have := (C12_evolve_values c hwf hk hop hall hv).1
+        rw [this] at h
+        cases h
+      | true =>
+        have := (C12_evolve_vetoed c hwf hk hop hall hv).1
+        rw [this] at h
+        cases h
   · exact C12_unknown_typeerror c hwf hk hop
 
+theorem isField_eq (c : Case) (p : WfParts c) :
+    (fun (kv : String × Val) => c.cur.any (·.1 == kv.1)) = (fun kv => c.base.run.attrs.any (·.name == kv.1)) := by
+  funext kv; exact any_cur_eq c p kv.1
+
 /-- **C12_assoc_spec**: `assoc` with field names only returns a fresh object whose fields are the original's
-    with exactly the named ones replaced (raw: no converter, no validator). -/
+    with exactly the named ones replaced (raw: no converter, no validator, no hook runs — whatever the values,
+    also ones a validator would reject), a field the original does not hold staying unset unless named. -/
 theorem C12_assoc_spec (c : Case) (hwf : wf c = true) (hop : c.op = .assoc)
     (hall : c.changes.all (fun kv => c.base.run.attrs.any (·.name == kv.1)) = true) :
-    (model c).exc = none ∧ (model c).fresh = true ∧
+    (model c).exc = none ∧ (model c).fresh = true ∧ (model c).trace = [] ∧
     (model c).values =
       c.cur.map (fun kv => (kv.1, match lookup kv.1 c.changes with | some w => some w | none => kv.2)) := by
   have p := wfParts c hwf
-  have : c.changes.all (fun kv => c.cur.any (·.1 == kv.1)) = true := by
-    rw [← hall]; congr 1; funext kv; exact any_cur_eq c p kv.1
+  have hl : assocLoop (fun n => c.cur.any (·.1 == n)) c.instHasDict c.changes = none := by
+    apply assocLoop_all_fields
+    rw [← hall]; congr 1; exact isField_eq c p
   unfold model
   rw [hop]
-  simp only [this, if_true, assocValues_eq]
-  exact ⟨trivial, trivial, rfl⟩
+  simp only [hl, assocValues_eq]
+  exact ⟨trivial, trivial, trivial, rfl⟩
 
-/-- **C12_assoc_unknown_notfound**: a name that is not a field makes `assoc` raise
-    AttrsAttributeNotFoundError. -/
-theorem C12_assoc_unknown_notfound (c : Case) (hwf : wf c = true) (hop : c.op = .assoc)
+/-- **C12_assoc_unknown_notfound**: a name that is not a field — whatever else it names on the instance or its
+    class: a method, a property, a class constant, an instance attribute, a dunder — makes `assoc` raise
+    AttrsAttributeNotFoundError (outside K12a: names that resolve on every fields tuple). -/
+theorem C12_assoc_unknown_notfound (c : Case) (hwf : wf c = true) (hk : known c = []) (hop : c.op = .assoc)
     (hbad : c.changes.all (fun kv => c.base.run.attrs.any (·.name == kv.1)) = false) :
     (model c).exc = some .notFound := by
   have p := wfParts c hwf
-  have : c.changes.all (fun kv => c.cur.any (·.1 == kv.1)) = false := by
-    rw [← hbad]; congr 1; funext kv; exact any_cur_eq c p kv.1
+  have ht := (known_nil c hk).2.2
+  unfold tupleName at ht
+  simp only [hop, beq_self_eq_true, Bool.true_and] at ht
+  have hl : assocLoop (fun n => c.cur.any (·.1 == n)) c.instHasDict c.changes = some .notFound := by
+    apply assocLoop_notFound
+    · rw [← hbad]; congr 1; exact isField_eq c p
+    · rw [← ht]; congr 1; funext kv; rw [any_cur_eq c p kv.1]
   unfold model
   rw [hop]
-  simp only [this, Bool.false_eq_true, if_false]
+  simp only [hl]
+  rfl
 
 /-- **C12_result_invariants**: outside the known findings, whatever either operation returns satisfies the
     class invariants (equal to, and hashing like, an instance rebuilt from its own values; frozen iff the
     class is). -/
-theorem C12_result_invariants (c : Case) (_hwf : wf c = true) (hk : known c = [])
+theorem C12_result_invariants (c : Case) (hwf : wf c = true) (hk : known c = [])
     (he : (model c).exc = none) : (model c).invariants = true := by
-  unfold model at he ⊢
+  have p := wfParts c hwf
   cases hop : c.op with
   | evolve =>
-    have hcm := (known_nil c hk).2 hop
-    simp only [hop] at he ⊢
-    split
-    · rename_i hm; simp [hm] at he
-    · rename_i hm
-      simp only [hm, Bool.false_eq_true, if_false] at he
-      cases h : (runInit (evolveCase c)).exc with
-      | some e => simp [h] at he
-      | none => simp [hcm]
+    have hcm := (known_nil c hk).2.1 hop
+    cases hall : c.changes.all (fun kv => (c.base.run.attrs.filter (·.init)).any (·.alias == kv.1)) with
+    | false => rw [C12_unknown_typeerror c hwf hk hop hall] at he; cases he
+    | true =>
+      cases hv : vetoed c with
+      | true => rw [(C12_evolve_vetoed c hwf hk hop hall hv).1] at he; cases he
+      | false =>
+        obtain ⟨e, _⟩ := runInit_evolve c p (known_nil c hk).1 hall
+        have hvf : vetoFault (evolveCase c).run c.veto (runInit (evolveCase c)).values = none := by
+          have := vetoFault_evolve c p (known_nil c hk).1 hall
+          rw [hv] at this
+          simpa using this
+        rw [model_evolve c hop (evolveMissing_false c p)]
+        simp only [e, hvf, hcm, Bool.false_and, Bool.not_false]
   | assoc =>
+    unfold model failed at he ⊢
     simp only [hop] at he ⊢
     split
     · rfl
-    · rename_i hm; simp [hm] at he
+    · rename_i e h; simp [h] at he
 
 /-- **C12_evolve_identity**: in the result of a successful `evolve` of a fully constructed instance, every init
     field without converter holds the very object that was given for it — the change if the field is named
     (also when that object merely equals the current one), else the object the original holds. -/
 theorem C12_evolve_identity (c : Case) (hwf : wf c = true) (hk : known c = []) (hop : c.op = .evolve)
     (hall : c.changes.all (fun kv => (c.base.run.attrs.filter (·.init)).any (·.alias == kv.1)) = true)
+    (hv : vetoed c = false)
     (a : Attr) (ha : a ∈ c.base.run.attrs) (hi : a.init = true) (hc : a.conv = none) :
     (a.name, identDemand (c.changes.any (·.1 == a.alias))) ∈ (model c).ident := by
   have p := wfParts c hwf
-  obtain ⟨_, _, v⟩ := C12_evolve_values c hwf hk hop hall
-  have hok : callOk (params (evolveCase c).run.attrs) (evolveCase c).call = true := by
-    rw [← hall]; exact callOk_evolve c p
-  obtain ⟨e, _⟩ := C01.C01_values (evolveCase c) (wf_evolveCase c p) (known_nil c hk).1 hok
-  have hm := evolveMissing_false c p
-  have hid : (model c).ident = evolveIdent c.base.run.attrs c.changes (model c).values := by
-    unfold model
-    rw [hop]
-    simp only [hm, Bool.false_eq_true, if_false, e]
-  rw [hid, v]
-  unfold evolveIdent
+  obtain ⟨e, v⟩ := runInit_evolve c p (known_nil c hk).1 hall
+  have hvf : vetoFault (evolveCase c).run c.veto (runInit (evolveCase c)).values = none := by
+    have := vetoFault_evolve c p (known_nil c hk).1 hall
+    rw [hv] at this
+    simpa using this
+  rw [v] at hvf
+  have hid : (model c).ident = evolveIdent c.base.run.attrs c.changes (expectedValues c) := by
+    rw [model_evolve c hop (evolveMissing_false c p)]
+    simp only [e, v, hvf]
+  rw [hid]
+  unfold evolveIdent expectedValues
   rw [zip_map_filterMap]
   refine List.mem_filterMap.2 ⟨a, ha, ?_⟩
   obtain ⟨w, hw⟩ := Option.isSome_iff_exists.1 (lookup_evolve_kw c p a ha hi).2
@@ -158,32 +241,36 @@ theorem C12_evolve_identity (c : Case) (hwf : wf c = true) (hk : known c = []) (
 
 /-- **C12_assoc_identity**: the result of `assoc` with field names only holds, in every named field, the very
     object given (also when it equals the old one), and shares every other field's object with the original
-    (a shallow copy). -/
+    (a shallow copy); a field the original does not hold stays unset unless it is named. -/
 theorem C12_assoc_identity (c : Case) (hwf : wf c = true) (hop : c.op = .assoc)
     (hall : c.changes.all (fun kv => c.base.run.attrs.any (·.name == kv.1)) = true)
     (kv : String × Option Val) (hkv : kv ∈ c.cur) :
-    (kv.1, identDemand (c.changes.any (·.1 == kv.1))) ∈ (model c).ident := by
+    (kv.1, identDemandV (c.changes.any (·.1 == kv.1)) kv.2) ∈ (model c).ident := by
   have p := wfParts c hwf
-  have hset : kv.2.isSome = true := by
-    rcases p.full with h | h
-    · rw [hop] at h; cases h
-    · exact h kv hkv
-  obtain ⟨w, hw⟩ := Option.isSome_iff_exists.1 hset
-  have : c.changes.all (fun kv => c.cur.any (·.1 == kv.1)) = true := by
-    rw [← hall]; congr 1; funext kv; exact any_cur_eq c p kv.1
+  have hl : assocLoop (fun n => c.cur.any (·.1 == n)) c.instHasDict c.changes = none := by
+    apply assocLoop_all_fields
+    rw [← hall]; congr 1; exact isField_eq c p
   have hid : (model c).ident = assocIdent c.cur c.changes := by
     unfold model
     rw [hop]
-    simp only [this, if_true]
+    simp only [hl]
   rw [hid]
   unfold assocIdent
   refine List.mem_map.2 ⟨kv, hkv, ?_⟩
-  cases hl : lookup kv.1 c.changes with
-  | some u => simp only [identOf_some]
-  | none => simp only [hw, identOf_some]
+  have hany := lookup_isSome_eq_any kv.1 c.changes
+  cases hl2 : lookup kv.1 c.changes with
+  | some u =>
+    rw [hl2] at hany
+    simp only [← hany, Option.isSome_some, identOf_some, identDemandV, identDemand, if_true]
+  | none =>
+    rw [hl2] at hany
+    simp only [← hany, Option.isSome_none]
+    cases hv : kv.2 with
+    | none => rfl
+    | some w => rfl
 
 /-- **C12_model_meets_spec**: the model satisfies the declarative specification on every well-formed case
-    outside the listed known findings (K2, K3). -/
+    outside the listed known findings (K2, K3, K12a). -/
 theorem C12_model_meets_spec (c : Case) (hwf : wf c = true) (hk : known c = []) :
     spec c (model c) = true := by
   unfold spec
@@ -193,21 +280,31 @@ theorem C12_model_meets_spec (c : Case) (hwf : wf c = true) (hk : known c = []) 
     simp only
     cases hall : c.changes.all (fun kv => (c.base.run.attrs.filter (·.init)).any (·.alias == kv.1)) with
     | true =>
-      obtain ⟨e, f, v⟩ := C12_evolve_values c hwf hk hop hall
-      have hi := C12_result_invariants c hwf hk e
-      have hid : (c.base.run.attrs.filter (·.init)).all (fun a => a.conv.isSome ||
-          (model c).ident.contains (a.name, identDemand (c.changes.any (·.1 == a.alias)))) = true := by
-        rw [List.all_eq_true]
-        intro a ha
-        obtain ⟨ha1, ha2⟩ := List.mem_filter.1 ha
-        cases hc : a.conv with
-        | some _ => rfl
-        | none =>
-          simp only [Option.isSome_none, Bool.false_or, List.contains_iff_mem]
-          exact C12_evolve_identity c hwf hk hop hall a ha1 ha2 hc
-      simp only [e, f, hi, hid, beq_self_eq_true, Bool.and_true, Bool.true_and, if_true]
-      rw [v]
-      exact beq_iff_eq.2 rfl
+      have hlike : (model c).likeDirect = true := by
+        have p := wfParts c hwf
+        rw [model_evolve c hop (evolveMissing_false c p)]
+        repeat (first | rfl | split)
+      cases hv : vetoed c with
+      | true =>
+        have := (C12_evolve_vetoed c hwf hk hop hall hv).1
+        simp [this, hlike]
+      | false =>
+        obtain ⟨e, f, v⟩ := C12_evolve_values c hwf hk hop hall hv
+        have hi := C12_result_invariants c hwf hk e
+        have hid : (c.base.run.attrs.filter (·.init)).all (fun a => a.conv.isSome ||
+            (model c).ident.contains (a.name, identDemand (c.changes.any (·.1 == a.alias)))) = true := by
+          rw [List.all_eq_true]
+          intro a ha
+          obtain ⟨ha1, ha2⟩ := List.mem_filter.1 ha
+          cases hc : a.conv with
+          | some _ => rfl
+          | none =>
+            simp only [Option.isSome_none, Bool.false_or, List.contains_iff_mem]
+            exact C12_evolve_identity c hwf hk hop hall hv a ha1 ha2 hc
+        simp only [e, f, hi, hid, hlike, beq_self_eq_true, Bool.and_true, Bool.true_and, if_true,
+          Bool.false_eq_true, if_false]
+        rw [v]
+        exact beq_iff_eq.2 rfl
     | false =>
       have := C12_unknown_typeerror c hwf hk hop hall
       simp [this]
@@ -215,19 +312,19 @@ theorem C12_model_meets_spec (c : Case) (hwf : wf c = true) (hk : known c = []) 
     simp only
     cases hall : c.changes.all (fun kv => c.base.run.attrs.any (·.name == kv.1)) with
     | true =>
-      obtain ⟨e, f, v⟩ := C12_assoc_spec c hwf hop hall
+      obtain ⟨e, f, t, v⟩ := C12_assoc_spec c hwf hop hall
       have hi := C12_result_invariants c hwf hk e
       have hid : c.cur.all (fun kv =>
-          (model c).ident.contains (kv.1, identDemand (c.changes.any (·.1 == kv.1)))) = true := by
+          (model c).ident.contains (kv.1, identDemandV (c.changes.any (·.1 == kv.1)) kv.2)) = true := by
         rw [List.all_eq_true]
         intro kv hkv
         simp only [List.contains_iff_mem]
         exact C12_assoc_identity c hwf hop hall kv hkv
-      simp only [e, f, hi, hid, beq_self_eq_true, Bool.and_true, Bool.true_and, if_true]
+      simp only [e, f, t, hi, hid, beq_self_eq_true, Bool.and_true, Bool.true_and, if_true]
       rw [v]
       exact beq_iff_eq.2 rfl
     | false =>
-      have := C12_assoc_unknown_notfound c hwf hop hall
+      have := C12_assoc_unknown_notfound c hwf hk hop hall
       simp [this]
 
 /-! ### known findings and non-vacuity -/
@@ -235,7 +332,8 @@ theorem C12_model_meets_spec (c : Case) (hwf : wf c = true) (hk : known c = []) 
 /-- the K3 witness: an instance of the K3 class of `C01.k3Witness` (a frozen dict class two levels below a
     frozen slotted one, legacy collection) evolved without changes -/
 def k3Witness : Case :=
-  { base := C01.k3Witness, op := .evolve, cur := [("x", some "v0")], changes := [] }
+  { base := C01.k3Witness, op := .evolve, cur := [("x", some "v0")], changes := [], veto := [],
+    instHasDict := true, copyNeedsAll := true }
 
 /-- **C12_known_slot_belief_witness** (K3): evolve constructs through the same initializer, so on a K3 class
     the model — like the code — returns an instance whose field reads as unset. -/
@@ -252,7 +350,8 @@ def k2Witness : Case :=
                                    convType := none }],
                        own := ["x"], bases := [], cacheIsSlot := true, fault := none },
               call := { pos := [], kw := [] }, isDefine := true, clsOnSet := .unset },
-    op := .evolve, cur := [("x", some "v0")], changes := [("x", "t1")] }
+    op := .evolve, cur := [("x", some "v0")], changes := [("x", "t1")], veto := [], instHasDict := true,
+    copyNeedsAll := false }
 
 /-- **C12_known_cache_misplaced_witness** (K2): the evolved instance cannot be hashed, so the invariants fail
     (an `assoc` result can: the copy's cache is reset in the slot, see `cacheMisplaced`). -/
@@ -281,7 +380,9 @@ def sample : Case :=
                        own := ["x", "y", "_z"], bases := [], cacheIsSlot := false, fault := none },
               call := { pos := [], kw := [] }, isDefine := true, clsOnSet := .unset },
     op := .evolve, cur := [("x", some "conv.x(t1)"), ("y", some "w"), ("_z", some "t2")],
-    changes := [("z", "t3")] }
+    changes := [("z", "t3")],
+    -- the validator of `x` rejects instances whose `_z` is bad
+    veto := [{ field := "x", idx := 0, watch := "_z" }], instHasDict := false, copyNeedsAll := true }
 
 /-- non-vacuity: the hypotheses of `C12_evolve_values` / `C12_model_meets_spec` are satisfiable by a
     non-trivial evolve case, … -/
@@ -311,5 +412,56 @@ example : wf { sample with changes := [("z", "t2")] } = true ∧
     (model { sample with op := .assoc, changes := [("x", "conv.x(t1)"), ("_z", "t2")] }).ident =
       [("x", .passed), ("y", .orig), ("_z", .passed)] := by
   refine ⟨by decide, by decide, by decide, by decide⟩
+
+/-- non-vacuity of `C12_evolve_vetoed`: the validator of `x` looks at `_z` — (1) changing ONLY `_z` to a bad value is
+    refused, after pre-init/converter callbacks and up to that validator; (2) so is an evolve that changes nothing
+    relevant after the original's `_z` was mutated into a bad state (carried-over invalid value); (3) with no bad
+    value around the same evolve succeeds. -/
+example : wf { sample with changes := [("z", "bad1")] } = true ∧ known { sample with changes := [("z", "bad1")] } = [] ∧
+    vetoed { sample with changes := [("z", "bad1")] } = true ∧
+    (model { sample with changes := [("z", "bad1")] }).exc = some .user ∧
+    (model { sample with changes := [("z", "bad1")] }).trace =
+      [{ id := { kind := "conv", field := "x", idx := 0 }, args := ["conv.x(t1)"] },
+       { id := { kind := "factory", field := "y", idx := 0 }, args := ["self"] },
+       { id := { kind := "validator", field := "x", idx := 0 }, args := ["self", "attr.x", "conv.x(conv.x(t1))"] }] := by
+  refine ⟨by decide, by decide, by decide, by decide, by decide⟩
+
+/-- the original's `_z` was reassigned to a bad value -/
+def mutatedSample : Case :=
+  { sample with cur := [("x", some "conv.x(t1)"), ("y", some "w"), ("_z", some "bad0")], changes := [] }
+
+example : wf mutatedSample = true ∧ vetoed mutatedSample = true ∧ (model mutatedSample).exc = some .user ∧
+    vetoed sample = false := by
+  refine ⟨by decide, by decide, by decide, by decide⟩
+
+/-- a dict instance whose `init=False` field `y` is unset -/
+def unsetSample : Case :=
+  { sample with op := .assoc, copyNeedsAll := false, cur := [("x", some "v"), ("y", none), ("_z", some "t2")] }
+
+/-- assoc stores a value the validators would reject without asking them, and leaves an unset field of a dict
+    instance unset unless it is named -/
+example : (model { sample with op := .assoc, changes := [("_z", "bad1")] }).exc = none ∧
+    (model { sample with op := .assoc, changes := [("_z", "bad1")] }).trace = [] ∧
+    wf { unsetSample with changes := [("x", "n1")] } = true ∧
+    (model { unsetSample with changes := [("x", "n1")] }).ident = [("x", .passed), ("y", .unset), ("_z", .orig)] ∧
+    (model { unsetSample with changes := [("y", "n1")] }).values =
+      [("x", some "v"), ("y", some "n1"), ("_z", some "t2")] := by
+  refine ⟨by decide, by decide, by decide, by decide, by decide⟩
+
+/-- the K12a witness: `count` is no field but an attribute of every tuple -/
+def k12aWitness : Case := { sample with op := .assoc, changes := [("count", "t9")], instHasDict := true }
+
+/-- **C12_known_tuple_name_witness** (K12a): `assoc(inst, count=…)` does not raise AttrsAttributeNotFoundError — the
+    model, like the code, writes a stray attribute (AttributeError on an instance without `__dict__`); any other
+    non-field name (a method, a class constant, a dunder that `tuple` lacks) is refused as demanded. -/
+theorem C12_known_tuple_name_witness :
+    ∃ c, wf c = true ∧ "K12a" ∈ known c ∧ spec c (model c) = false :=
+  ⟨k12aWitness, by decide, by decide, by decide⟩
+
+example : (model k12aWitness).exc = none ∧ (model { k12aWitness with instHasDict := false }).exc = some .attributeError ∧
+    known { k12aWitness with changes := [("describe", "t9")] } = [] ∧
+    (model { k12aWitness with changes := [("describe", "t9")] }).exc = some .notFound ∧
+    (model { k12aWitness with changes := [("__attrs_attrs__", "t9"), ("count", "t9")] }).exc = some .notFound := by
+  refine ⟨by decide, by decide, by decide, by decide, by decide⟩
 
 end Attrs.C12
